@@ -39,6 +39,8 @@ def qbytes_int_mm(activations: torch.Tensor, weights: torch.Tensor, output_scale
     out_features = weights.shape[0]
     # torch._int_mm works on transposed weights, i.e (in_features, out_features)
     weights = weights.t()
+    # and on contiguous activations (it returns wrong results for broadcast, i.e stride 0, activations)
+    activations = activations.contiguous()
     if activations.ndim == 2:
         out_data = torch._int_mm(activations, weights)
     else:
